@@ -6,6 +6,7 @@ import (
 	"go/constant"
 	"go/token"
 	"go/types"
+	"os"
 	"strings"
 
 	"golang.org/x/tools/go/cfg"
@@ -418,4 +419,112 @@ func ruleValueAbsence(c *Ctx) {
 		}
 	}
 	c.Floor("variables that become leaf values", n, 3)
+}
+
+// unsigned-window: `x < a - b` (or any ordering comparison one operand of which is a difference of two non-constant
+// unsigned values) wraps around when b > a: "older than the retained window" becomes true for every height on a chain
+// shorter than the window. Such a comparison must be protected: the same condition (by &&) or a condition on the way
+// tests a > b / a >= b, or the difference is of a shape tabled as safe.
+func ruleUnsignedWindow(c *Ctx, pkgs ...string) {
+	want := map[string]bool{}
+	for _, p := range pkgs {
+		want[p] = true
+	}
+	n := 0
+	for _, fd := range c.P.AllFuncDecls() {
+		if !want[pkgRel(fd.Pkg.Types)] || fd.Decl.Body == nil {
+			continue
+		}
+		info := fd.Pkg.TypesInfo
+		f := c.P.NewFuncCFG(fd)
+		idx := 0
+		isUnsigned := func(e ast.Expr) bool {
+			t := info.TypeOf(e)
+			if t == nil {
+				return false
+			}
+			b, ok := t.Underlying().(*types.Basic)
+			return ok && b.Info()&types.IsUnsigned != 0
+		}
+		nonConst := func(e ast.Expr) bool {
+			tv, ok := info.Types[e]
+			return ok && tv.Value == nil
+		}
+		ast.Inspect(fd.Decl.Body, func(x ast.Node) bool {
+			be, ok := x.(*ast.BinaryExpr)
+			if !ok {
+				return true
+			}
+			switch be.Op {
+			case token.LSS, token.GTR, token.LEQ, token.GEQ:
+			default:
+				return true
+			}
+			for _, side := range []ast.Expr{be.X, be.Y} {
+				sub, ok := ast.Unparen(side).(*ast.BinaryExpr)
+				if !ok || sub.Op != token.SUB || !isUnsigned(sub) || !nonConst(sub.X) || !nonConst(sub.Y) {
+					continue
+				}
+				n++
+				idx++
+				key := fmt.Sprintf("%s.unsigned-diff#%d", FuncKey(fd.Obj), idx)
+				a, b := types.ExprString(ast.Unparen(sub.X)), types.ExprString(ast.Unparen(sub.Y))
+				// a guard a > b / a >= b / b < a / b <= a anywhere in the function (conditions are evaluated before; a
+				// cheap over-approximation of "on the way")
+				guarded := false
+				ast.Inspect(fd.Decl.Body, func(y ast.Node) bool {
+					g, ok := y.(*ast.BinaryExpr)
+					if !ok {
+						return true
+					}
+					l, r := types.ExprString(ast.Unparen(g.X)), types.ExprString(ast.Unparen(g.Y))
+					switch g.Op {
+					case token.GTR, token.GEQ, token.LSS, token.LEQ:
+						// any test of their order counts: `if a < b { return }` establishes a >= b for what follows
+						if (l == a && r == b) || (l == b && r == a) {
+							guarded = true
+						}
+					}
+					return true
+				})
+				// the same through single-definition locals (h, mtb := f(), g())
+				if !guarded {
+					la, _, _ := linearForm(f, sub.X, 0)
+					lb, _, _ := linearForm(f, sub.Y, 0)
+					ast.Inspect(fd.Decl.Body, func(y ast.Node) bool {
+						g, ok := y.(*ast.BinaryExpr)
+						if !ok {
+							return true
+						}
+						gl, _, _ := linearForm(f, g.X, 0)
+						gr, _, _ := linearForm(f, g.Y, 0)
+						switch g.Op {
+						case token.GTR, token.GEQ, token.LSS, token.LEQ:
+							if (gl == la && gr == lb) || (gl == lb && gr == la) {
+								guarded = true
+							}
+						}
+						return true
+					})
+				}
+				base := FuncKey(fd.Obj) + "#" + a + "-" + b
+				if guarded {
+					c.OK(key, c.P.Pos(sub.Pos()), fmt.Sprintf("`%s - %s` is compared only where %s >= %s is tested in the function", a, b, a, b))
+				} else if why, ok := unsignedDiffOK[base]; ok {
+					c.OK(key, c.P.Pos(sub.Pos()), "tabled: "+why)
+				} else {
+					if os.Getenv("NV_USUB") != "" {
+						fmt.Println("USUB", c.P.Pos(sub.Pos()), base, types.ExprString(be))
+					}
+					c.Fail(key, c.P.Pos(sub.Pos()), fmt.Sprintf("%s compares `%s`: the unsigned difference %s - %s wraps around when %s > %s and nothing in the function tests their order", FuncKey(fd.Obj), trunc(types.ExprString(be), 70), a, b, b, a))
+				}
+			}
+			return true
+		})
+	}
+	c.OK("scope."+strings.Join(pkgs, "+"), "", fmt.Sprintf("%d ordering comparisons of an unsigned difference examined", n))
+}
+
+var unsignedDiffOK = map[string]string{
+	"pkg/core/statesync.(*Module).Init#p-s.syncInterval": "p >= 2*syncInterval on this path: the function returns above when p < 2*s.syncInterval",
 }
